@@ -109,6 +109,9 @@ var profC03 = &hist.Profile{
 	W: map[string]int{
 		hist.OpPublish: 14, hist.OpPull: 22, hist.OpAck: 18, hist.OpStreamAck: 4, hist.OpModAck: 10, hist.OpNack: 8, hist.OpAdvance: 16,
 		hist.OpSweep: 3, hist.OpCreateSub: 4, hist.OpDeleteSub: 1, hist.OpJob: 1, hist.OpStream: 6,
+		// "unless a later Seek explicitly rewinds it": seeks of this and of sibling
+		// subscriptions, which must not bring back anything they do not cover
+		hist.OpSeekTime: 3, hist.OpSnapshot: 2, hist.OpSeekSnap: 3,
 	},
 	Ordered: 30, Keys: []string{"", "K1", "K2"}, Filters: hist.DefaultFilters,
 	DLPercent: 30, Attempts: []int{1, 2, 3}, Retry: 60,
@@ -219,8 +222,10 @@ var profC13 = &hist.Profile{
 	},
 	Ordered: 20, Keys: []string{"", "K1"}, Filters: []string{"", "", `attributes:x`},
 	Retry: 60, MinBs: []time.Duration{100 * ms, sec, 10 * sec}, MaxBs: []time.Duration{0, 5 * sec},
-	Rets:      []time.Duration{30 * day},
-	AdvScales: []time.Duration{ms, 100 * ms, sec, 5 * sec, 11500 * ms, minute, hour},
+	// "with fresh retention": short retentions and subscription TTLs that differ
+	// from them, looked at around the old and the new retention end
+	Rets: []time.Duration{30 * day, 30 * day, 10 * minute}, TTLs: []time.Duration{0, 0, day}, TargetExpiry: true,
+	AdvScales: []time.Duration{ms, 100 * ms, sec, 5 * sec, 11500 * ms, minute, 11 * minute, hour},
 	Prelude: func(t *rapid.T, g *hist.Gen) {
 		preludeTopics(1)(t, g)
 		cfg := g.GenCfg("t0")
